@@ -21,23 +21,21 @@ Theorem C03_guard_nonvacuous : exists fmt, In fmt (map fst format_map) /\
 Proof. exact formats_nonvacuous. Qed.
 Print Assumptions C03_guard_nonvacuous.
 
-(* Keys on the wire are the spec's property names whatever field names were derived: for ANY name
-   sanitizer and ANY list of distinct property names, if the field names picked by the generator's
-   collision loop are pairwise distinct (executable guard, evaluated on every correspondence case;
-   what is NOT proved is that the `_2, _3, ...` loop always achieves it), then the attribute names
-   are distinct, the wire keys the converter derives from Meta.key_transform_with_load are distinct,
-   and Meta.key_transform_with_dump sends every attribute back to exactly the key it is loaded from. *)
-Theorem C03_maps_bijective_partial : forall sanitize s,
-  NoDup (map p_name (s_props s)) ->
-  nodupb (map snd (names_of sanitize s)) = true ->
-  maps_bijective (gen_class sanitize s).
-Proof. exact maps_bijective_partial. Qed.
-Print Assumptions C03_maps_bijective_partial.
+(* FULL.  Keys on the wire are the spec's property names whatever field names were derived: for ANY
+   name sanitizer and ANY list of distinct property names (any required flags, any order), the
+   attribute names chosen by the generator (sanitised name, `_2, _3, ...` probing on collision — the
+   probing loop is proved to always find a fresh name) are pairwise distinct, the wire keys the
+   converter derives from Meta.key_transform_with_load are the distinct original property names, and
+   Meta.key_transform_with_dump sends every attribute back to exactly the key it is loaded from. *)
+Theorem C03_maps_bijective : forall sanitize s,
+  NoDup (map p_name (s_props s)) -> maps_bijective (gen_class sanitize s).
+Proof. exact maps_bijective_full. Qed.
+Print Assumptions C03_maps_bijective.
 
-(* the guard is met by three properties that all sanitize to the same name (user_id, user_id_2, user_id_3) *)
-Theorem C03_maps_guard_nonvacuous :
+(* example: three properties that all sanitize to the same name get user_id, user_id_2, user_id_3 *)
+Theorem C03_maps_example :
   NoDup (map p_name (s_props s_demo)) /\ nodupb (map snd (names_of san_demo s_demo)) = true /\
   map snd (names_of san_demo s_demo) =
   [[117;115;101;114;95;105;100]; [117;115;101;114;95;105;100;95;50]; [117;115;101;114;95;105;100;95;51]].
 Proof. exact maps_demo. Qed.
-Print Assumptions C03_maps_guard_nonvacuous.
+Print Assumptions C03_maps_example.
